@@ -260,3 +260,39 @@ Example C01_nonvacuous_set_endpoint :
   outs step (ex_st None) [TunBatch [ex_pkt]; ShiftHs 1; SetEp 1 5; AnswerHs 1 9 5]
   = [[]; []; [OInit 1 5]; [OData 1 5 9 0 ex_pkt 1420]].
 Proof. vm_compute. reflexivity. Qed.
+
+(* ------------------------------------------------ round 10: racing responses, port-only roaming *)
+
+Theorem C01_racing_responses_one_completes : forall st p ra ea rb eb w,
+  step st (answer_race p ra ea rb eb w) = step st (AnswerHs p (if w then rb else ra) (if w then eb else ea)).
+Proof. exact racing_responses_one_completes. Qed.
+Print Assumptions C01_racing_responses_one_completes.
+
+Theorem C01_racing_responses_consistent : forall st p ra ea rb eb w q ep rcv ctr pk m,
+  In (OData q ep rcv ctr pk m) (snd (step st (answer_race p ra ea rb eb w))) ->
+  q = p /\ ((rcv = ra /\ ep = ea) \/ (rcv = rb /\ ep = eb)).
+Proof. exact racing_responses_consistent. Qed.
+Print Assumptions C01_racing_responses_consistent.
+
+Theorem C01_answer_announces_index_and_endpoint : forall st j ridx e q ep rcv ctr pk m,
+  In (OData q ep rcv ctr pk m) (snd (step st (AnswerHs j ridx e))) -> q = j /\ rcv = ridx /\ ep = e.
+Proof. exact step_answer_data. Qed.
+Print Assumptions C01_answer_announces_index_and_endpoint.
+
+Theorem C01_roam_moves_endpoint : forall tbl mtu i p ep p1 o1,
+  peer_step tbl mtu true i p (Roam i ep) = (p1, o1) -> usable p <> None ->
+  o1 = [] /\ p_ep p1 = Some ep /\
+  forall pkts p2 o2 q ep' rcv ctr pk m,
+    peer_step tbl mtu true i p1 (TunBatch pkts) = (p2, o2) -> In (OData q ep' rcv ctr pk m) o2 -> ep' = ep.
+Proof. exact roam_moves_endpoint. Qed.
+Print Assumptions C01_roam_moves_endpoint.
+
+(* Both schedules of the race: the flush carries index 9 toward endpoint 4, or index 8 toward endpoint 104 — never a mix;
+   then the peer's source port alone changes (endpoint 104 -> 4 are one address, two ports in the harness) and the next
+   packet follows it. *)
+Example C01_nonvacuous_race :
+  outs step (ex_st (Some 3)) [TunBatch [ex_pkt]; answer_race 1 9 4 8 104 false; Roam 1 104; TunBatch [ex_pkt]]
+  = [[OInit 1 3]; [OData 1 4 9 0 ex_pkt 1420]; []; [OData 1 104 9 1 ex_pkt 1420]] /\
+  outs step (ex_st (Some 3)) [TunBatch [ex_pkt]; answer_race 1 9 4 8 104 true; Roam 1 4; TunBatch [ex_pkt]]
+  = [[OInit 1 3]; [OData 1 104 8 0 ex_pkt 1420]; []; [OData 1 4 8 1 ex_pkt 1420]].
+Proof. split; vm_compute; reflexivity. Qed.
